@@ -43,6 +43,10 @@ def cells(tier):
                         params=P, sym=[('tag', 'str')], pre=pre, timeout=max(T, 120), cost=50 + hi,
                         example={'tag': {9: 'roDelete', 13: 'roStoryMove', 18: 'roMetadataReplace',
                                          24: 'roSomethingUnknownHereX'}[hi]}))
+    # the ElementAction.from_* entry points are total as well: any other document is an unknown MOS file type
+    out.append(Cell(pid=PID, cid='C08/free-tag/ElementAction-entry/len1-18', harness='h_classify:free_tag_cell',
+                    params={'maxlen': 18, 'entry': 'ElementAction'}, sym=[('tag', 'str')],
+                    pre=["re.fullmatch('[A-Za-z]{1,18}', tag)"], timeout=max(T, 120), cost=60, example={'tag': 'roCreate'}))
     for tshape in ('absent', 'empty', 's', 's+i', 's+ii', 'blank-s+blank-i', 'blank-s'):
         for sshape in ('absent', 'empty', 'ids', 'iids', 'stories', 'items', 'sid+iid'):
             P = {'tshape': tshape, 'sshape': sshape}
